@@ -23,7 +23,8 @@ SYNTAXES = ['html', 'xml', 'xsl', 'jsx', 'vue', 'svelte']
 VOID = {'img', 'br', 'input', 'hr', 'meta', 'link'}
 NAMES = ['div', 'p', 'span', 'em', 'ul', 'li', 'section', 'b', 'x-y', 'table', 'tr', 'td', 'body', 'h1', 'a', 'img', 'br', 'input', 'label', 'select',
          'xsl:variable', 'xsl:with-param', 'html', 'i', 'strong', 'article', 'header', 'hr', 'ns:t', 'code', 'small', 'blockquote']
-TEXTS = ['t1', 'hello world', 'l1\nl2', 'x ${1:ph} y', '${2}', 'a\nbb\nccc', 'tail ', ' lead', 'a  b', 'c1\rc2', 'w1\r\nw2\r\nw3', 'm1\n\nm3']
+TEXTS = ['t1', 'hello world', 'l1\nl2', 'x ${1:ph} y', '${2}', 'a\nbb\nccc', 'tail ', ' lead', 'a  b', 'c1\rc2', 'w1\r\nw2\r\nw3', 'm1\n\nm3',
+         'Dear ${1:name},\nthank you', '${1}\nfoo', 'a ${2:b}\r\nc ${1}', '${1:x}${2:y}\nz']
 ATTRS = ['[d1=v1]', '[d2="v 2"]', '[select=q name="n m"]', '[k]', '[title=x]', "[e='s']"]
 
 
